@@ -1,5 +1,5 @@
 (* C16 — property theorems only. Each is closed by [exact] of a lemma of Proofs_*.v. *)
-From Coq Require Import List ZArith QArith Qround Qabs Bool.
+From Coq Require Import List ZArith QArith Qround Qabs Bool Permutation.
 From Gst Require Import lib.QAux C16.Model C16.Spec C16.Proofs.
 Import ListNotations.
 Local Open Scope Q_scope.
@@ -103,124 +103,101 @@ Theorem C16_frame : forall n g coor, wfgrid n g -> length coor = n ->
 Proof. exact frame_back. Qed.
 Print Assumptions C16_frame.
 
-(* ------------------------------------------------------------------ derived grids *)
-(* Grid::multiple / divider on an unrotated grid: the origin is where the documented meaning puts it *)
-Theorem C16_coarse_origin : forall n g nmult flagCell, unrotated g -> wflen n g -> length nmult = n ->
+(* ------------------------------------------------------------------ derived grids (any grid, rotated or not) *)
+(* the origin of Grid::multiple / divider / dilate / createSubGrid is where the documented meaning puts it:
+   barycentre of the first nmult parent nodes (cell matching) or parent node 0 (point matching); centre of the first
+   sub-cell; parent node -mode*nshift; parent node lim0 *)
+Theorem C16_coarse_origin : forall n g nmult flagCell, gridok n g -> length nmult = n ->
   eqlQ (snd (multiple g nmult flagCell)) (spec_multiple_x0 g nmult flagCell).
-Proof. exact multiple_x0_unrot. Qed.
+Proof. exact multiple_x0. Qed.
 Print Assumptions C16_coarse_origin.
-Theorem C16_refine_origin : forall n g nmult flagCell, unrotated g -> wflen n g -> length nmult = n ->
+Theorem C16_refine_origin : forall n g nmult flagCell, gridok n g -> length nmult = n ->
   Forall (fun m => (0 < m)%Z) nmult ->
   eqlQ (snd (divider g nmult flagCell)) (spec_divider_x0 g nmult flagCell).
-Proof. exact divider_x0_unrot. Qed.
+Proof. exact divider_x0. Qed.
 Print Assumptions C16_refine_origin.
+Theorem C16_dilate_origin : forall g mode nshift p, dilate g mode nshift = Some p -> snd p = spec_dilate_x0 g mode nshift.
+Proof. exact dilate_x0. Qed.
+Print Assumptions C16_dilate_origin.
+Theorem C16_subgrid_origin : forall n g lim0 lim1, gridok n g -> length lim0 = n ->
+  eqlQ (g_x0 (subgrid g lim0 lim1)) (spec_subgrid_x0 g lim0).
+Proof. exact subgrid_x0. Qed.
+Print Assumptions C16_subgrid_origin.
 
-(* the same on a rotated grid when the multiplicity is the same on every axis
-   (with different multiplicities it fails: C16_coarse_rotated_refuted, C16_refine_rotated_refuted) *)
-Theorem C16_coarse_origin_rotated_uniform : forall n g nmult m,
-  rotated g -> wfmat n (r_mat (g_rot g)) -> wflen n g -> length nmult = n -> uniform m nmult ->
-  eqlQ (snd (multiple g nmult true)) (spec_multiple_x0 g nmult true).
-Proof. exact multiple_x0_rot_uniform. Qed.
-Print Assumptions C16_coarse_origin_rotated_uniform.
-Theorem C16_refine_origin_rotated_uniform : forall n g nmult m,
-  rotated g -> wfmat n (r_mat (g_rot g)) -> wflen n g -> length nmult = n -> uniform m nmult -> (0 < m)%Z ->
-  eqlQ (snd (divider g nmult true)) (spec_divider_x0 g nmult true).
-Proof. exact divider_x0_rot_uniform. Qed.
-Print Assumptions C16_refine_origin_rotated_uniform.
-
-(* every node of the coarsened grid: barycentre of the nmult parent nodes (cell matching) / parent node j*nmult *)
+(* every node of the coarsened grid: barycentre of the nmult parent nodes j*m .. j*m+m-1, i.e. fractional parent index
+   j*m + (m-1)/2 (cell matching) / parent node j*m (point matching) — rotated grids and different nmult per axis included *)
 Theorem C16_coarse_nodes : forall n g nmult flagCell j,
-  unrotated g -> wflen n g -> length nmult = n -> length j = n ->
+  gridok n g -> length nmult = n -> length j = n ->
   eqlQ (node (derived g (multiple g nmult flagCell)) j)
        (frac_node g (zerosZ g) (map2 (fun jj m => inject_Z jj * inject_Z m + (if flagCell then (inject_Z m - 1) / 2 else 0)) j nmult)).
-Proof. exact coarse_nodes_unrot. Qed.
+Proof. exact coarse_nodes. Qed.
 Print Assumptions C16_coarse_nodes.
+(* a + (m-1)/2 is the mean of the m consecutive indices a, a+1, ..., a+m-1 *)
+Theorem C16_barycentre_index : forall (m : nat) (a : Q), (0 < m)%nat ->
+  sumQ m (fun t => a + inject_Z (Z.of_nat t)) / inject_Z (Z.of_nat m) == a + (inject_Z (Z.of_nat m) - 1) / 2.
+Proof. exact barycentre_index. Qed.
+Print Assumptions C16_barycentre_index.
+(* every node of the refined grid: fractional parent index j/m - 1/2 + 1/(2m) (cell matching) / j/m (point matching) *)
 Theorem C16_refine_nodes : forall n g nmult flagCell j,
-  unrotated g -> wflen n g -> length nmult = n -> length j = n -> Forall (fun m => (0 < m)%Z) nmult ->
+  gridok n g -> length nmult = n -> length j = n -> Forall (fun m => (0 < m)%Z) nmult ->
   eqlQ (node (derived g (divider g nmult flagCell)) j)
        (frac_node g (zerosZ g) (map2 (fun jj m => inject_Z jj / inject_Z m + (if flagCell then - (1 # 2) + 1 / (2 * inject_Z m) else 0)) j nmult)).
-Proof. exact refine_nodes_unrot. Qed.
+Proof. exact refine_nodes. Qed.
 Print Assumptions C16_refine_nodes.
-
-(* DbGrid::createSubGrid on an unrotated grid: node 0 of the sub-grid is parent node lim0 *)
-Theorem C16_subgrid : forall n g lim0 lim1, unrotated g -> wflen n g -> length lim0 = n ->
-  eqlQ (g_x0 (subgrid g lim0 lim1)) (spec_subgrid_x0 g lim0).
-Proof. exact subgrid_x0_unrot. Qed.
-Print Assumptions C16_subgrid.
-
-(* Grid::dilate as written: the origin is parent node -2*mode*nshift (twice the documented shift) *)
-Theorem C16_dilate_code : forall n g mode nshift p, unrotated g -> wflen n g -> length nshift = n ->
-  dilate g mode nshift = Some p ->
-  eqlQ (snd p) (node g (map (fun s => (- (2 * mode) * s)%Z) nshift)).
-Proof. exact dilate_x0_unrot. Qed.
-Print Assumptions C16_dilate_code.
-
-(* refutations on the faithful model (each witness is replayed on the implementation by the check) *)
-Theorem C16_dilate_refuted : exists g mode nshift p,
-  unrotated g /\ wflen 1 g /\ dilate g mode nshift = Some p /\ ~ eqlQ (snd p) (spec_dilate_x0 g mode nshift).
-Proof.
-  exists {| g_nx := [4%Z]; g_x0 := [10]; g_dx := [2]; g_rot := rot_identity 1 |}, 1%Z, [1%Z], ([6%Z], [2], [6]).
-  split; [reflexivity|]. split; [repeat split|]. split; [vm_compute; reflexivity|].
-  intro H. apply eqlQ_b_complete in H. vm_compute in H. discriminate.
-Qed.
-Print Assumptions C16_dilate_refuted.
+(* every node of the dilated grid is parent node j - mode*nshift *)
+Theorem C16_dilate_nodes : forall n g mode nshift p j,
+  gridok n g -> length nshift = n -> length j = n -> dilate g mode nshift = Some p ->
+  eqlQ (node (derived g p) j) (node g (map2 Z.add j (map (fun s => (- mode * s)%Z) nshift))).
+Proof. exact dilate_nodes. Qed.
+Print Assumptions C16_dilate_nodes.
+(* every node of the sub-grid is parent node j + lim0 *)
+Theorem C16_subgrid_nodes : forall n g lim0 lim1 j,
+  gridok n g -> length lim0 = n -> length lim1 = n -> length j = n ->
+  eqlQ (node (subgrid g lim0 lim1) j) (node g (map2 Z.add j lim0)).
+Proof. exact subgrid_nodes. Qed.
+Print Assumptions C16_subgrid_nodes.
+(* a well-formed grid satisfies the hypothesis of the theorems above *)
+Theorem C16_gridok : forall n g, wfgrid n g -> gridok n g.
+Proof. exact wfgrid_gridok. Qed.
+Print Assumptions C16_gridok.
 
 Definition g_rot90 : grid :=
   {| g_nx := [4%Z; 3%Z]; g_x0 := [10; 20]; g_dx := [2; 1]; g_rot := rot_of_matrix 2 [[0; -(1)]; [1; 0]] |}.
 
-Theorem C16_coarse_rotated_refuted : exists g nmult,
-  wfgrid 2 g /\ ~ eqlQ (snd (multiple g nmult true)) (spec_multiple_x0 g nmult true).
-Proof.
-  exists g_rot90, [2%Z; 3%Z]. split.
-  - repeat split; try (repeat constructor; reflexivity).
-    right. split; [apply orthogonal_b_spec; vm_compute; reflexivity|reflexivity].
-  - intro H. apply eqlQ_b_complete in H. vm_compute in H. discriminate.
-Qed.
-Print Assumptions C16_coarse_rotated_refuted.
-Theorem C16_refine_rotated_refuted : exists g nmult,
-  wfgrid 2 g /\ ~ eqlQ (snd (divider g nmult true)) (spec_divider_x0 g nmult true).
-Proof.
-  exists g_rot90, [2%Z; 3%Z]. split.
-  - repeat split; try (repeat constructor; reflexivity).
-    right. split; [apply orthogonal_b_spec; vm_compute; reflexivity|reflexivity].
-  - intro H. apply eqlQ_b_complete in H. vm_compute in H. discriminate.
-Qed.
-Print Assumptions C16_refine_rotated_refuted.
-Theorem C16_subgrid_rotated_refuted : exists g lim0 lim1,
-  wfgrid 2 g /\ ~ eqlQ (g_x0 (subgrid g lim0 lim1)) (spec_subgrid_x0 g lim0).
-Proof.
-  exists g_rot90, [1%Z; 1%Z], [3%Z; 3%Z]. split.
-  - repeat split; try (repeat constructor; reflexivity).
-    right. split; [apply orthogonal_b_spec; vm_compute; reflexivity|reflexivity].
-  - intro H. apply eqlQ_b_complete in H. vm_compute in H. discriminate.
-Qed.
-Print Assumptions C16_subgrid_rotated_refuted.
-
 (* ------------------------------------------------------------------ mirror index *)
-(* for nx >= 2 the loop of generateMirrorIndex ends (fuel 2|ix|+2 suffices) with the reflected index, in range *)
-Theorem C16_mirror : forall nx ix, (2 <= nx)%Z ->
-  mirror_fuel (Z.to_nat (2 * Z.abs ix + 2)) nx ix = Some (reflect nx ix) /\ (0 <= reflect nx ix < nx)%Z.
-Proof. exact mirror_ok. Qed.
+(* Grid::generateMirrorIndex is total for every nx >= 1 (fuel 2|ix|+2 suffices for its loop): the answer is in range,
+   it is the reflected index for nx >= 2 (0 for a single node), and an index already in range is returned unchanged *)
+Theorem C16_mirror : forall nx ix, (1 <= nx)%Z ->
+  exists v, mirror_index (Z.to_nat (2 * Z.abs ix + 2)) nx ix = Some v /\ (0 <= v < nx)%Z /\
+            ((2 <= nx)%Z -> v = reflect nx ix) /\ ((0 <= ix < nx)%Z -> v = ix).
+Proof. exact mirror_index_ok. Qed.
 Print Assumptions C16_mirror.
-(* for a single-node axis and ix <> 0 it never ends, whatever the fuel *)
-Theorem C16_mirror_nx1_diverges : forall fuel ix, ix <> 0%Z -> mirror_fuel fuel 1 ix = None.
-Proof. exact mirror_nx1_diverges. Qed.
-Print Assumptions C16_mirror_nx1_diverges.
 
-(* ------------------------------------------------------------------ iterator (default order) *)
-(* call number j (from 0) returns the indices of rank j, and stays on the last node afterwards;
+(* ------------------------------------------------------------------ iterator *)
+(* default order: call number j (from 0) returns the indices of rank j, and stays on the last node afterwards;
    with C16_rank_idx: every node exactly once, in rank order *)
 Theorem C16_iterator : forall nx k it j, (0 <= it < prodZ nx)%Z -> (j < k)%nat ->
   nth j (iter_run nx k it) [] = rankToIndice nx (Z.min (it + Z.of_nat j) (prodZ nx - 1)) false.
 Proof. exact iter_run_nth. Qed.
 Print Assumptions C16_iterator.
-
-(* with a user-supplied order: every order accepted by iteratorInit (1-based, all dimensions present)
-   makes iteratorNext index its arrays beyond their end (it uses |order| where |order|-1 is meant) *)
-Theorem C16_iterator_order_refuted : forall nx order it, (0 < length nx)%nat ->
-  iter_order_valid (length nx) order = true -> iter_next_order nx order it = None.
-Proof. exact iter_order_refuted. Qed.
-Print Assumptions C16_iterator_order_refuted.
+(* user order = signed 1-based permutation of the dimensions (what iteratorInit accepts): iteration number `it' gives
+   indices whose digits, read along the order from the slowest dimension, are the mixed-radix digits of `it' for the
+   permuted counts — in range and determining `it'; so the N = prod nx calls visit N different nodes *)
+Theorem C16_iterator_order : forall nx order it,
+  Forall (fun o => (1 <= Z.abs o)%Z) order -> Permutation (map od order) (seq 0 (length nx)) ->
+  allpos nx -> (0 <= it < prodZ nx)%Z ->
+  exists idx, iter_next_order nx order it = Some idx /\ length idx = length nx /\
+    let nr := map (fun o => nth (od o) nx 0%Z) (rev order) in
+    let digits := map (fun o => nth (od o) idx 0%Z) (rev order) in
+    inrange nr digits /\ hv nr digits = it.
+Proof. exact iter_order_spec. Qed.
+Print Assumptions C16_iterator_order.
+Theorem C16_iterator_order_once : forall nx order it1 it2 idx,
+  Forall (fun o => (1 <= Z.abs o)%Z) order -> Permutation (map od order) (seq 0 (length nx)) ->
+  allpos nx -> (0 <= it1 < prodZ nx)%Z -> (0 <= it2 < prodZ nx)%Z ->
+  iter_next_order nx order it1 = Some idx -> iter_next_order nx order it2 = Some idx -> it1 = it2.
+Proof. exact iter_order_injective. Qed.
+Print Assumptions C16_iterator_order_once.
 
 (* the boolean orthogonality test used by the examples is sound *)
 Theorem C16_orthogonal_test : forall n M, orthogonal_b n M = true -> orthogonal n M.
@@ -251,16 +228,20 @@ Example C16_nonvacuous_rotation :
   eqlQ_b (rotate_inverse (rot_of_matrix 2 (rot2d (3 # 5) (4 # 5))) (rotate_direct (rot_of_matrix 2 (rot2d (3 # 5) (4 # 5))) [7; -2])) [7; -2] = true /\
   eqlQ_b (rotate_direct (rot_of_matrix 2 (rot2d (3 # 5) (4 # 5))) [5; 0]) [3; 4] = true.
 Proof. vm_compute. repeat split; reflexivity. Qed.
-(* derived grids of an unrotated parent, mirror index, iterator *)
+(* derived grids (unrotated and rotated parents, different nmult per axis), mirror index, iterator *)
 Example C16_nonvacuous_derived :
   let g := {| g_nx := [4%Z; 6%Z]; g_x0 := [10; 20]; g_dx := [2; 1]; g_rot := rot_identity 2 |} in
   fst (fst (multiple g [2%Z; 3%Z] true)) = [2%Z; 2%Z] /\
   eqlQ_b (snd (fst (multiple g [2%Z; 3%Z] true))) [4; 3] = true /\ eqlQ_b (snd (multiple g [2%Z; 3%Z] true)) [11; 21] = true /\
   fst (fst (divider g [2%Z; 2%Z] true)) = [8%Z; 12%Z] /\
   eqlQ_b (snd (fst (divider g [2%Z; 2%Z] true))) [1; 1 # 2] = true /\ eqlQ_b (snd (divider g [2%Z; 2%Z] true)) [19 # 2; 79 # 4] = true /\
-  eqlQ_b (snd (multiple g_rot90 [2%Z; 2%Z] true)) (spec_multiple_x0 g_rot90 [2%Z; 2%Z] true) = true /\
-  eqlQ_b (snd (multiple g_rot90 [2%Z; 2%Z] true)) [19 # 2; 21] = true /\
-  mirror_fuel 20 4 (-7) = Some 1%Z /\ reflect 4 (-7) = 1%Z /\ mirror_fuel 1000 1 1 = None /\
+  eqlQ_b (snd (multiple g_rot90 [2%Z; 3%Z] true)) [9; 21] = true /\
+  eqlQ_b (snd (divider g_rot90 [2%Z; 3%Z] true)) [31 # 3; 39 # 2] = true /\
+  eqlQ_b (g_x0 (subgrid g_rot90 [1%Z; 1%Z] [3%Z; 3%Z])) [9; 22] = true /\
+  match dilate g_rot90 1 [1%Z; 2%Z] with Some p => fst (fst p) = [6%Z; 7%Z] /\ eqlQ_b (snd p) [12; 18] = true | None => False end /\
+  mirror_index 20 4 (-7) = Some 1%Z /\ reflect 4 (-7) = 1%Z /\ mirror_index 0 1 5 = Some 0%Z /\
   iter_run [2%Z; 2%Z] 5 0 = [[0%Z; 0%Z]; [1%Z; 0%Z]; [0%Z; 1%Z]; [1%Z; 1%Z]; [1%Z; 1%Z]] /\
-  iter_order_valid 2 [2%Z; 1%Z] = true /\ iter_next_order [2%Z; 3%Z] [2%Z; 1%Z] 0 = None.
+  iter_init_order 2 [2%Z; 1%Z] = [2%Z; 1%Z] /\ iter_init_order 2 [1%Z; 0%Z] = [] /\
+  iter_next_order [2%Z; 3%Z] [2%Z; 1%Z] 1 = Some [0%Z; 1%Z] /\ iter_next_order [2%Z; 3%Z] [2%Z; 1%Z] 3 = Some [1%Z; 0%Z] /\
+  iter_next_order [2%Z; 3%Z] (default_order 2) 3 = Some [1%Z; 1%Z].
 Proof. vm_compute. repeat split; reflexivity. Qed.
